@@ -36,7 +36,15 @@ def run(c):
             n, h, evs = traces[i]
             failed = sorted(t for t, o in outs[i].items() if o != "committed")
             notes = [e.get("note", "")[:120] for e in evs if e.get("ev") == "CommitEnd" and not e.get("ok")]
-            why = "commit-failed" if failed else ("union-differs:" + conclib.classify_unserializable(hists[i]))
+            def reason(n0):
+                n0 = n0.lower()
+                if "detected conflict" in n0: return "item-lock-conflict"
+                if "deadline" in n0 or "timed out" in n0: return "deadline"
+                if "retry limit" in n0: return "retry-limit"
+                if "failed to merge" in n0: return "merge-add-failed"
+                if "newer version" in n0: return "newer-version"
+                return "other"
+            why = ("commit-failed:" + ",".join(sorted({reason(x) for x in notes}))) if failed else ("union-differs:" + conclib.classify_unserializable(hists[i]))
             sig = "disjoint|%s|slot=%d|empty=%s|%s" % (sched, slot, empty, why)
             classes[sig] += 1
             c.report(sig, "disjoint writers: %s %s" % (why, notes[:2]),
